@@ -562,6 +562,7 @@ func run(r *vk.Run) {
 	toleranceDrift(r)
 	deadOnArrival(r)
 	joinEmptied(r)
+	subscribeStorm(r)
 	stress(r)
 	r.Require("forced-scenarios-run", 100)
 	r.Require("stress-runs", 100)
@@ -1386,6 +1387,105 @@ func joinEmptied(r *vk.Run) {
 		}
 	}
 	r.Require("join-emptied-scenarios", 2)
+}
+
+// subscribeStorm (F11): one writer counts an item (a Value) up, 1, 2, 3, ... without pause while four goroutines keep
+// opening backpressured, seeded subscriptions: whatever value n the seed shows, the events that follow continue from
+// it without a gap (n itself may be repeated once as an event): no commit around the moment of subscribing is missed. No hook is involved; the windows are
+// whatever the library leaves open between taking the snapshot and joining the stream.
+func subscribeStorm(r *vk.Run) {
+	rounds := r.Pick(32, 640)
+	per := r.Pick(250, 2500)
+	for round := 0; round < rounds; round++ {
+		if !r.Mine(round) {
+			continue
+		}
+		isValue := round%2 == 1
+		kind := map[bool]string{true: "value", false: "pull"}[isValue]
+		col := resource.NewCollection(resource.WithClock(clk{}), resource.WithInitialRecord("x", &tat{DefaultString: "x", DefaultInt32: 0}))
+		val := resource.NewValue(resource.WithClock(clk{}), resource.WithInitialValue(&tat{DefaultString: "x", DefaultInt32: 0}))
+		var stop atomic.Bool
+		wdone := make(chan struct{})
+		go func() {
+			defer close(wdone)
+			for i := int32(1); !stop.Load(); i++ {
+				if isValue {
+					val.Set(&tat{DefaultString: "x", DefaultInt32: i})
+				} else {
+					col.Update("x", &tat{DefaultString: "x", DefaultInt32: i})
+				}
+			}
+		}()
+		var wg sync.WaitGroup
+		var mu sync.Mutex
+		bad := ""
+		subs := 0
+		for g := 0; g < 4; g++ {
+			wg.Add(1)
+			go func() {
+				defer wg.Done()
+				for k := 0; k < per; k++ {
+					ctx, cancel := context.WithCancel(context.Background())
+					var seen []int32
+					if isValue {
+						ch := val.Pull(ctx, resource.WithBackpressure(true))
+						for len(seen) < 3 {
+							e, ok := <-ch
+							if !ok {
+								break
+							}
+							seen = append(seen, asTat(e.Value).DefaultInt32)
+						}
+						cancel()
+						for range ch {
+						}
+					} else {
+						ch := col.Pull(ctx, resource.WithBackpressure(true))
+						for len(seen) < 3 {
+							e, ok := <-ch
+							if !ok {
+								break
+							}
+							seen = append(seen, asTat(e.NewValue).DefaultInt32)
+						}
+						cancel()
+						for range ch {
+						}
+					}
+					mu.Lock()
+					subs++
+					// the commit the seed already shows may arrive once more as an event (same value, the view is unaffected);
+					// what may not happen is a gap or a step backwards
+					okSeq := len(seen) == 3
+					for q := 1; okSeq && q < 3; q++ {
+						okSeq = seen[q] == seen[q-1] || seen[q] == seen[q-1]+1
+					}
+					if bad == "" && !okSeq {
+						bad = fmt.Sprintf("a subscription was seeded with %v and then received %v: a commit in between was never delivered (or an older one came later)", seen[:1], seen[1:])
+					}
+					stopNow := bad != ""
+					mu.Unlock()
+					if stopNow {
+						return
+					}
+				}
+			}()
+		}
+		wg.Wait()
+		stop.Store(true)
+		<-wdone
+		r.Eval(subs)
+		r.Count("subscribe-storm-subscriptions", subs)
+		r.Count("subscribe-storm-rounds", 1)
+		r.Distinct("storm|" + kind)
+		if bad != "" {
+			r.Violation("C03/fold/"+kind+"/bp/subscribe-storm", fmt.Sprintf("one writer counting %s up while backpressured seeded subscriptions are opened and closed: %s", kind, bad), map[string]any{"round": round, "kind": kind})
+		}
+		if _, ok := r.MustQuiesce("c03-storm"); !ok {
+			return
+		}
+	}
+	r.Require("subscribe-storm-subscriptions", 1000)
 }
 
 // zeroBodies (F7): items created with a body that has nothing set (the zero message), Values set to the zero
